@@ -148,7 +148,9 @@ func c19Gen(r *Run, rng *gen.Rng, corpus []string) *c19Inv {
 			// names a shell would expand (tsh is not a shell)
 			"~scratch.tsh", "~", "~root.tsh", "$HOME.tsh", "${x}.tsh",
 			// the target's extension in another case; the extension's text a second time further left
-			"DEPLOY.SH", "Setup.Bat", "x.Sh", "RUN.BAT", "deploy.tsh.old.tsh", "release.1.0.1", "x.tshirt.tsh", "a.sh.sh.tsh"})
+			"DEPLOY.SH", "Setup.Bat", "x.Sh", "RUN.BAT", "deploy.tsh.old.tsh", "release.1.0.1", "x.tshirt.tsh", "a.sh.sh.tsh",
+			// stems that are "." and ".." (what remains when the last extension is removed)
+			"..tsh", "...tsh"})
 		// imports are relative to the main file's directory: keep the directory, change the base name
 		nm = path.Join(path.Dir(main), path.Base(nm))
 		if rng.Chance(33) && path.Dir(main) == "." && len(gw.Closure) == 1 {
@@ -202,7 +204,7 @@ func c19Gen(r *Run, rng *gen.Rng, corpus []string) *c19Inv {
 		gw.Set(victim, data)
 		inv.ProgKind = "mutated:" + desc
 	}
-	mount := rng.Pick([]string{"/sim/m", "/w/my proj", "/home/u/src", "/home/u/.dotfiles/p", "/w/proj-1.2/src", "/w/100% (x)", "/w/projet-été"})
+	mount := rng.Pick([]string{"/sim/m", "/w/my proj", "/home/u/src", "/home/u/.dotfiles/p", "/w/proj-1.2/src", "/w/100% (x)", "/w/projet-été", "/w/greeter:v2", "/w/backup-2026-09-24T10:30:00"})
 	exe := rng.Pick([]string{"/sim/x", "/opt/tsh/bin"})
 	outAbs := rng.Pick([]string{"/sim/out", "/sim/out", "/w/build dir", mount, "/sim/bash", "/sim/batch", "/sim/-t", "/sim/out.d/v1.2", "/sim/build%20out", "/sim/out [1]", "/sim/ausgabe-ü", "/sim/出力", "/sim/out dir ", "/sim/ lead"})
 	files := c13World(gw, r.Env, mount, exe)
@@ -295,6 +297,17 @@ func c19Gen(r *Run, rng *gen.Rng, corpus []string) *c19Inv {
 		inv.HasLink = true
 	}
 	inv.InArg = rel(inAbs)
+	switch {
+	case len(gw.Closure) == 1 && rng.Chance(8):
+		// ".." right after a symbolic link to a directory: the kernel goes to the parent of the link's
+		// TARGET, a lexical clean-up of the path goes somewhere else
+		files = append(files, simrt.FileSpec{Path: path.Join(path.Dir(inAbs), ".d"), Dir: true}, simrt.FileSpec{Path: "/sim/lnk/cur", Link: path.Join(path.Dir(inAbs), ".d")})
+		inv.InArg = "/sim/lnk/cur/../" + path.Base(inAbs)
+		inv.HasLink = true
+	case rng.Chance(6):
+		// an absolute path that is not in clean form
+		inv.InArg = path.Dir(inAbs) + rng.Pick([]string{"/./", "//", "/.//"}) + path.Base(inAbs)
+	}
 	inv.OutArg = rel(outAbs)
 	if outLink != "" {
 		inv.OutArg = rel(outLink)
@@ -474,7 +487,19 @@ func (inv *c19Inv) candidates(refs map[string]*c19Ref, t string) []*c19Ref {
 
 // outDir is the output directory as the kernel resolves it in the pre-state: -o may name a
 // symbolic link to the directory.
-func (inv *c19Inv) outDir() string { return inv.resolveLinks(absJoin(inv.Spec.Cwd, inv.OutArg)) }
+func (inv *c19Inv) outDir() string { return inv.kpath(inv.OutArg) }
+
+// kpath resolves a command-line path the way the kernel does in the pre-state (symbolic links
+// in every component, ".." after a link); a path that cannot be resolved is cleaned lexically.
+func (inv *c19Inv) kpath(p string) string {
+	spec := inv.Spec
+	spec.Faults, spec.Events = nil, nil
+	w := simrt.NewWorld(&spec)
+	if r := w.ResolvePath(p); r != "" && !strings.Contains(r, "\x00") {
+		return path.Clean(r)
+	}
+	return inv.resolveLinks(absJoin(inv.Spec.Cwd, p))
+}
 
 // resolveLinks follows the symbolic links of the pre-state at the last component of p.
 func (inv *c19Inv) resolveLinks(p string) string {
@@ -982,7 +1007,7 @@ func c19Probes(st *c19Stats, inv *c19Inv, res *TshResult, refs map[string]*c19Re
 		st.probes["program_with_imports"]++
 	}
 	out := inv.outDir()
-	if out == path.Dir(absJoin(inv.Spec.Cwd, inv.InArg)) {
+	if out == path.Dir(inv.kpath(inv.InArg)) {
 		st.probes["out_is_input_dir"]++
 	}
 	for _, f := range inv.Spec.Files {
@@ -1122,7 +1147,7 @@ func c19Round(r *Run, rng *gen.Rng, st *c19Stats, corpus []string, roundSize, sw
 				img[p] = simrt.FileSpec{Path: p, Data: append([]byte{}, d.Data...)}
 			}
 		}
-		in := absJoin(inv.Spec.Cwd, inv.InArg)
+		in := inv.kpath(inv.InArg)
 		if len(inv.Protected) > 1 && rng.Chance(50) {
 			// not the input itself but something it imports (a local module, a std file)
 			in = path.Clean(inv.Protected[rng.Intn(len(inv.Protected))])
@@ -1220,7 +1245,7 @@ func c19Probe(r *Run, inv *c19Inv, refs map[string]*c19Ref) (string, string) {
 // read; within a call every stat of a path is counted, and a stat that was made to fail becomes
 // the path-keyed fault (path, n-th stat of that path in this call).
 func statFaultGroups(inv *c19Inv, res *TshResult) [][]*simrt.Fault {
-	in := inv.resolveLinks(absJoin(inv.Spec.Cwd, inv.InArg)) // (the journal names files by their resolved paths)
+	in := inv.kpath(inv.InArg) // (the journal names files by their resolved paths)
 	groups := [][]*simrt.Fault{}
 	var cur []*simrt.Fault
 	counts := map[string]int{}
